@@ -13,16 +13,16 @@ from ..drivers import Harness
 
 LEVEL = "model_checking"
 RULE = (
-    "segment alphabet {a,b}; event types = all dotted words of length <=3 plus done.x, error.x, after.x, xstate.x and three near-miss types whose segments merely start with a descriptor prefix (ab, ab.b, a.ab) "
-    "(21); descriptor universe = exact words, 'p.*' for |p|<=2, '*' (21 keys); ALL key sets up to the size bound on "
+    "segment alphabet {a,b}; event types = all dotted words of length <=3 plus done.x, error.x, after.x, xstate.x and three near-miss types whose segments merely start with a descriptor prefix (ab, ab.b, a.ab) and two types with a segment '$b' that sorts below '*' "
+    "(23); descriptor universe = exact words, 'p.*' for |p|<=2, '*', 'a.$b', 'a.$b.*' (23 keys); ALL key sets up to the size bound on "
     "a leaf, all pairs of key sets on (leaf, parent); every key is a targetless marker transition; variants: "
     "unguarded, each key with a false guard, each key declared null; each (machine, event) evaluation goes through "
     "the real send() and is compared with the reference matcher; distinct_nontrivial = distinct (key-set, variant, "
     "event, expected outcome) tuples where at least one key matches the event"
 )
 BOUNDS = {
-    "quick": "leaf key sets |K|<=3; (leaf,parent) pairs |K|<=2 x |K|<=1; 21 event types; sync+async",
-    "thorough": "leaf key sets |K|<=4; (leaf,parent) pairs |K|<=2 x |K|<=2; 21 event types; sync+async",
+    "quick": "leaf key sets |K|<=3; (leaf,parent) pairs |K|<=2 x |K|<=1; 23 event types; sync+async",
+    "thorough": "leaf key sets |K|<=4; (leaf,parent) pairs |K|<=2 x |K|<=2; 23 event types; sync+async",
 }
 ASSUMPTIONS = ["segment alphabet of two letters, words up to three segments"]
 ENGINES = ("sync", "async")
@@ -32,9 +32,11 @@ WORDS = [".".join(w) for n in (1, 2, 3) for w in itertools.product(SEG, repeat=n
 INTERNAL = ["done.x", "error.x", "after.x", "xstate.x"]
 # event types that share CHARACTERS with a descriptor prefix but not a SEGMENT: "a.*" matches "a" and "a.b", never "ab"
 NEAR = ["ab", "ab.b", "a.ab"]
-EVENTS = WORDS + INTERNAL + NEAR
+# a segment that starts with a character sorting BELOW '*' ('$'): "longest prefix first" is an order by length, not by text
+LOWSEG = ["a.$b", "a.$b.a"]
+EVENTS = WORDS + INTERNAL + NEAR + LOWSEG
 PREFIXES = [".".join(w) for n in (1, 2) for w in itertools.product(SEG, repeat=n)]
-KEYS = WORDS[:] + [p + ".*" for p in PREFIXES] + ["*"]
+KEYS = WORDS[:] + [p + ".*" for p in PREFIXES] + ["*"] + ["a.$b", "a.$b.*"]
 # internal event names can also be declared as exact keys
 KEYS_INTERNAL = ["done.x", "xstate.x", "done.*", "error.*"]
 ALLKEYS = KEYS + KEYS_INTERNAL
